@@ -18,7 +18,7 @@
 (***************************************************************************)
 EXTENDS Shmem, Json
 
-CONSTANTS Family,     \* "proto" | "tab" | "cb" | "reg" | "mgr" | "vec"
+CONSTANTS Family,     \* "proto" | "tab" | "cb" | "reg" | "regx" | "mgr" | "msg" | "paths"
           R1, R2, R3, \* proto: role name per process ("" = no such process)
           Slots,      \* max_slots of the PID table the creators ask for
           MaxCrash,   \* proto / mgr: number of SIGKILLs
@@ -145,6 +145,15 @@ Alphabet ==
          UNION {{[p |-> p, op |-> "mnew", id |-> 1, nm |-> "a", sz |-> 4096, maxc |-> 2, tmo |-> 3600000], [p |-> p, op |-> "mdrop", id |-> 1],
                  [p |-> p, op |-> "mwrite", id |-> 1, kind |-> "ka", mid |-> p, n |-> 3], [p |-> p, op |-> "mread", id |-> 1, sz |-> 52],
                  [p |-> p, op |-> "exit"], [p |-> p, op |-> "crash"]} : p \in 1..3}
+    [] Family = "msg" ->
+         {[p |-> 1, op |-> "msg_rt", kind |-> k, mid |-> 3, n |-> n] :
+             k \in {"freq", "fid", "fresp", "nf", "sreq", "sgen", "sresp", "ka", "raw"}, n \in {0, 1, 10, 1000}}
+         \cup {[p |-> 1, op |-> "msg_rt", kind |-> "fresp", mid |-> 3, n |-> n] : n \in {MaxPayload - 28, MaxPayload - 27}}
+         \cup {[p |-> 1, op |-> "msg_rt", kind |-> "sresp", mid |-> 3, n |-> n] : n \in {MaxPayload - 32, MaxPayload - 31}}
+         \cup {[p |-> 1, op |-> "msg_parse", kind |-> k, n |-> n, lenv |-> v, cut |-> c] :
+                 k \in {"freq", "fresp", "sreq", "sresp"}, n \in {0, 10},
+                 v \in {0, 9, 10, 11, 65536, MaxPayload, MaxPayload + 1, 536870912, 2147483647}, c \in {0, 1}}
+    [] Family = "paths" -> {P1("paths")}
     [] OTHER -> {}
 \* prune sequences that only repeat an error or a read (IF, not \/: inside the next-state relation TLC explores
 \* every disjunct)
